@@ -135,6 +135,64 @@ pub fn run(op: &str, args: &[String]) -> Option<String> {
                 let sig = BSM::sign_message(&k, b"m").unwrap();
                 cls(sig.recover_public_key_from_digest(&arg_bytes(args, 0)?))
             }
+            "getpub_digest" => {
+                // the inner public method behind recover_public_key_from_digest
+                let sig = BSM::sign_message(&key_from_seed(3), b"m").unwrap();
+                cls(sig.get_public_key_from_digest(&arg_bytes(args, 0)?))
+            }
+            "getpub_msg" => {
+                let sig = BSM::sign_message(&key_from_seed(3), b"m").unwrap();
+                let _ = sig.get_public_key(&arg_bytes(args, 0)?, SigningHash::Sha256d);
+                cls(sig.get_public_key(&arg_bytes(args, 0)?, SigningHash::Sha256))
+            }
+            "coinbase_script" => match Script::from_coinbase_bytes(&arg_bytes(args, 0)?) {
+                Ok(sc) => {
+                    let _ = sc.to_bytes();
+                    let _ = sc.to_asm_string();
+                    let _ = sc.get_script_length();
+                    "OK".into()
+                }
+                Err(_) => "ERR".into(),
+            },
+            "mnemonic" => cls(ExtendedPrivateKey::from_mnemonic(&arg_bytes(args, 0)?, arg_bytes(args, 1))),
+            "outpoint_txin" => match TxIn::from_outpoint_bytes(&arg_bytes(args, 0)?) {
+                Ok(i) => {
+                    let _ = i.to_bytes();
+                    let _ = i.get_outpoint_bytes(Some(true));
+                    "OK".into()
+                }
+                Err(_) => "ERR".into(),
+            },
+            "prev_txid" => {
+                // a transaction id of any length handed to the constructor / setter, then every reader of it
+                let b = arg_bytes(args, 0)?;
+                let mut i = TxIn::new(&b, 1, &Script::default(), None);
+                let _ = i.to_bytes();
+                let _ = i.get_outpoint_bytes(Some(true));
+                let _ = i.get_outpoint_bytes(None);
+                let _ = i.get_prev_tx_id(Some(true));
+                i.set_prev_tx_id(&b);
+                let _ = i.to_hex();
+                let _ = i.is_coinbase();
+                "OK".into()
+            }
+            "bsm_verify" => {
+                // message of any length against a fixed signature through the address entry points
+                let k = key_from_seed(3);
+                let sig = BSM::sign_message(&k, b"m").unwrap();
+                let addr = P2PKHAddress::from_pubkey(&PublicKey::from_private_key(&k)).unwrap();
+                let _ = addr.is_valid_bitcoin_message(&arg_bytes(args, 0)?, &sig);
+                cls(addr.verify_bitcoin_message(&arg_bytes(args, 0)?, &sig))
+            }
+            "key_from_k" => {
+                let k = key_from_seed(3);
+                let e = key_from_seed(4);
+                let pre = arg_bytes(args, 0)?;
+                match ECDSA::sign_with_k(&k, &e, &pre, SigningHash::Sha256d) {
+                    Ok(sig) => cls(ECDSA::private_key_from_signature_k(&sig, &PublicKey::from_private_key(&k), &e, &pre, SigningHash::Sha256d)),
+                    Err(_) => "ERR".into(),
+                }
+            }
             "cbor_txin_hex" => cls(TxIn::from_compact_hex(&text(args, 0)?)),
             "pubkey_hash" => cls(P2PKHAddress::from_pubkey_hash(&arg_bytes(args, 0)?)),
             "seed_xprv" => cls(ExtendedPrivateKey::from_seed(&arg_bytes(args, 0)?)),
